@@ -114,7 +114,17 @@ def _huge_counts():
     return out
 
 
-STRUCTURAL = CYCLES + _clashes() + _long_lines() + _huge_counts() + [".equ a = low(a)\n.dw a", ".equ a = a * 2\n.if a\n.endif", ".set s = 1\n.set s = low(s2)\n.equ s2 = s2\n",
+def _at_signs():
+    """an '@' that is not a parameter reference, in bodies of macros called with and without operands"""
+    out = []
+    for line in (" nop ; @", " nop ; mail avr@atmel.com", " .db \"avr@atmel.com\", 0", " .db \"@\", \"@@\"", " ldi r16, '@'", " nop ; @x @y", " nop ; @@0", " nop ; @ 0",
+                 " nop ; 100@", "@", " @", "@x", " .db @", " ldi r16, @", " nop ; @10 @99 @-1", " .db \"@0@1@\", @0", "; @\n; @@\n nop ; @@@"):
+        for call in (" m", " m 1", " m r16, 2", " m 1, 2, 3, 4, 5, 6, 7, 8, 9, 10"):
+            out.append(".macro m\n%s\n.endm\n%s\n nop" % (line, call))
+    return out
+
+
+STRUCTURAL = CYCLES + _clashes() + _long_lines() + _huge_counts() + _at_signs() + [".equ a = low(a)\n.dw a", ".equ a = a * 2\n.if a\n.endif", ".set s = 1\n.set s = low(s2)\n.equ s2 = s2\n",
     ".macro a\nb @0\n.endm\n.macro b\na @0\n.endm\na 1", ".macro a\n.if 1\na\n.endif\n.endm\na", ".macro a\n.dseg\n.cseg\na\n.endm\na",
     ".equ x = y\n.equ y = x\n.dw x", ".equ x = x\n.dw x", ".equ x = x + 1\nldi r16, x", ".set s = s\n", ".macro m\nm\n.endm\nm",
     ".macro a\nb\n.endm\n.macro b\na\n.endm\na", ".macro m\n.macro n\n.endm\nm", ".macro m\n.include \"x\"\n.endm\nm", ".macro m\n.includepath \"x\"\n.endm\nm", ".includepath \"x\"\n.includepath \"/\"\n.includepath \"\"\n",
@@ -139,6 +149,10 @@ REPEATED = {
     "seg-switch": ("", ".dseg\n.byte 1\n.cseg\n nop\n"), "macro-def": ("", ".macro m%d\n nop\n.endm\n"), "define": ("", ".define F%d\n"),
     "db-str": ("", " .db \"abcdefgh\"\n"), "eseg-db": (".eseg\n", " .db %d & 255\n"), "nop": ("", " nop\n"), "equ-chain-use": (".equ a = 1\n", " .dw a + %d\n"),
     "comment": ("", "; c\n"), "blank": ("", "\n"), "includepath": ("", ".includepath \"d%d\"\n"), "org": ("", None),
+    # calls whose expansion is empty: nothing is nested, however many there are
+    "macro-call-empty": (".macro m\n.endm\n", " m\n"), "macro-call-if0": (".macro m\n.if 0\n nop\n.endif\n.endm\n", " m\n"),
+    "macro-call-equ-only": (".macro m\n.equ x@0 = 1\n.endm\n", " m %d\n"), "macro-call-comment-only": (".macro m\n ; nothing @0\n.endm\n", " m %d\n"),
+    "macro-call-empty-then-real": (".macro e\n.endm\n.macro m\n e\n e\n nop\n.endm\n", " m\n"),
 }
 PROMPT_SECONDS = 3.0
 
@@ -170,6 +184,10 @@ def run_repeated(res, vh):
                 break
         res.count(("repeated", kind), nontrivial=True)
         k = obs.split(" ")[0]
+        if k != "OK":
+            # every one of these programs is valid, whatever its size
+            P.fail(res, "builder::build_str (isolated worker)", "%s ... (%d bytes: 64 KiB of this line)" % (text[:80], len(text)),
+                   "a successful build", obs[:60], "repeated-rejected:" + kind)
         if k in ("PANIC", "CRASH", "TIMEOUT", "MISSING") or best > PROMPT_SECONDS:
             P.fail(res, "builder::build_str (isolated worker)", "%s ... (%d bytes: 64 KiB of this line)" % (text[:80], len(text)),
                    "a result or an error value within %.0f s" % PROMPT_SECONDS, "%s after %.1f s" % (k, best), "slow:" + kind)
